@@ -65,6 +65,7 @@ func main() {
 	compactHeavy := fl.Bool("compactheavy", false, "fill several segments with live and dead records, then compact (promotions overflow the current segment)")
 	oneClass := fl.Bool("oneclass", false, "seq: all keys share one low-bit class (very long bucket chains)")
 	failOpen := fl.Bool("failopen", false, "a failing Open attempt (injected fs error) before some images are reopened")
+	failMaint := fl.Bool("failmaint", false, "fault: some Compact / Sync / Backup calls fail with an injected file-system error; the database must stay usable")
 	failClose := fl.Bool("failclose", false, "fault: some Close calls fail with an injected file-system error; the process exits and the directory is opened again")
 	noPin := fl.Bool("nopin", false, "seq: every second program runs with pogreb's own random hash seeds")
 	bigVals := fl.Bool("bigvals", false, "stress: values of 1-4 MiB (long copies out of the file, one segment per put)")
@@ -115,7 +116,7 @@ func main() {
 				rs = *rseed
 			}
 			r := h.NewRunner(rec, p, h.RunParams{Mode: *mode, Seed: rs, Depth: *depth, Twice: *twice, PLimit: *plimit, OnlyClosed: *onlyClosed,
-				Probe: *probe, FullEvery: 40, FailOpen: *failOpen, FailClose: *failClose})
+				Probe: *probe, FullEvery: 40, FailOpen: *failOpen, FailClose: *failClose, FailMaint: *failMaint})
 			if *mode == "seq" {
 				defer r.CloseAndDecode()
 			}
@@ -131,6 +132,7 @@ func main() {
 			tot["epochs"] += r.Epochs
 			tot["failed_opens"] += r.FailedOpens
 			tot["failed_closes"] += r.FailedCloses
+			tot["failed_maint"] += r.FailedMaint
 			tot["ops"] += r.Ops
 			tot["programs"]++
 			if i < 2 {
